@@ -953,10 +953,11 @@ fn stringify(
         ArrayKind(args) => {
             let mut first_row = true;
             let mut matrix_string = String::new();
+            // the parser reads `\` as the row separator when the decimal separator is a comma
             let row_separator = if locale.numbers.symbols.decimal == "." {
                 ';'
             } else {
-                '/'
+                '\\'
             };
             let col_separator = if row_separator == ';' { ',' } else { ';' };
 
